@@ -15,7 +15,7 @@
 (*  PerOctetPadded (C05): a complete PER encoding is a whole number of      *)
 (*                 octets, at least one                                    *)
 (***************************************************************************)
-EXTENDS TypeGen, Profile
+EXTENDS TypeGen, Profile, X691Reader
 
 Vals == Case.vals
 TheEnv == Case.env
@@ -54,6 +54,25 @@ DerCanonical ==
 DerIsDer ==
   \A i \in 1..Len(Vals) :
      LET p == ParseTlv(DerEnc(TheEnv, gT, Vals[i], {})) IN p.ok /\ DerNodeViolation(p.t) = ""
+
+\* (C05 / C16 on the model) the independently written reader X691Reader inverts the encoder X691 for
+\* both variants and consumes exactly the encoding
+PerReaderInverts ==
+  \A i \in 1..Len(Vals) : \A al \in {TRUE, FALSE} :
+     Admits(TheEnv, gT, Vals[i]) =>
+       LET items == PerEnc(TheEnv, gT, Vals[i], al, {})
+           r == PerDecode(TheEnv, gT, Complete(items), al)
+       IN r.ok /\ RMatches(TheEnv, gT, Vals[i], r.v) /\ r.p = Len(Flat(items)) + 1
+
+\* (C16 on the model, PER / UPER) no strict octet prefix of a non-empty complete encoding can be read
+PrefixPoints(n) == IF n <= 48 THEN 0..(n - 1) ELSE {0, 1, 2, 3, n \div 2, n - 3, n - 2, n - 1}
+PerPrefixFree ==
+  \A i \in 1..Len(Vals) : \A al \in {TRUE, FALSE} :
+     Admits(TheEnv, gT, Vals[i]) =>
+       LET items == PerEnc(TheEnv, gT, Vals[i], al, {})
+           octs == Complete(items)
+       IN Flat(items) # <<>> =>
+            \A k \in PrefixPoints(Len(octs)) : ~PerDecode(TheEnv, gT, SubSeq(octs, 1, k), al).ok
 
 PerOctetPadded ==
   \A i \in 1..Len(Vals) :
